@@ -105,6 +105,9 @@ DisplayTable ==                                                                 
   [ t \in {"td", "th"} |-> "table-cell" ]
 DisplayInlineBlock ==   \* 15.3.10: input, select, button, textarea { display: inline-block }; 15.5: marquee, meter, progress { display: inline-block }
   { "input", "select", "button", "textarea", "marquee", "meter", "progress" }
+(* HTML 15.4 "Replaced elements" (embedded content: the box is the replaced content, child nodes are fallback and not
+   rendered) and the foreign roots, whose content is laid out by SVG / MathML, not as HTML inline text *)
+ReplacedElements == { "audio", "canvas", "embed", "iframe", "img", "object", "video", "svg", "math" }
 DisplayLineBreak == { "br" }            \* 15.3.4: br { display-outside: newline } -- a forced line break
 (* option / optgroup are rendered only through their *label* (HTML 4.10.10: the label of an
    option is its label attribute or its text IDL attribute = "strip and collapse ASCII
@@ -140,6 +143,10 @@ LineBreakDisplays   == { "line-break" }
 NotRenderedDisplays == { "none", "none-scripting", "label", "frames" }
 WsInsignificantDisplays == BlockLevelDisplays \cup TablePartDisplays \cup LineBreakDisplays \cup NotRenderedDisplays
 BlockOKTag(tag) == Display(tag) \in WsInsignificantDisplays
+(* atomic inline-level boxes: inline-block (CSS 2 9.2.2: a single opaque box in the line, its content is laid out in a
+   formatting context of its own, where a blank at the start or end of a line is removed - CSS Text 4.1.2) and replaced
+   elements.  A blank INSIDE such an element next to its tags is therefore never a substitute for a blank OUTSIDE it. *)
+AtomicInlineTag(tag) == Display(tag) = "inline-block" \/ (tag \in ReplacedElements /\ ~BlockOKTag(tag))
 
 (***************************************************************************)
 (* HTML attributes.  Source: HTML Living Standard, "Attributes" index      *)
